@@ -86,6 +86,22 @@ for f in os.listdir(out):
     if os.path.isfile(p) and os.path.getsize(p) < 400000 and not f.endswith(".txt") and not f.endswith(".log"):
         shutil.copyfile(p, os.path.join(dst, f))
 rep = res.pop("first_replay", None)
+# keep what earlier runs recorded about this seed (strengthening notes, first-try result)
+old_p = os.path.join(dst, "meta.json")
+if os.path.exists(old_p):
+    try:
+        old = json.load(open(old_p))
+        for k in ("strengthened", "first_try_caught", "kind"):
+            if k in old and k not in meta:
+                meta[k] = old[k]
+        if "first_try_caught" not in meta and "verification_run" in old:
+            meta["first_try_caught"] = bool(old["verification_run"].get("caught")) and "strengthened" not in old
+    except Exception:
+        pass
+if "first_try_caught" not in meta:
+    meta["first_try_caught"] = bool(res.get("caught"))
+if os.environ.get("SEED_KIND"):
+    meta["kind"] = os.environ["SEED_KIND"]
 meta["verification_run"] = res
 json.dump(meta, open(os.path.join(dst, "meta.json"), "w"), indent=1)
 if rep is not None:
